@@ -13,7 +13,7 @@ RULE = (
     "randrange, randint, choice, choices, shuffle, sample, uniform, triangular, gauss, normalvariate, expovariate, betavariate, "
     "...): two instances seeded alike, re-seeding, snapshot at any point + replay, a second instance interleaved; seeds = small "
     "/ huge ints, sequences, None; both the NumPy-backed class and the stdlib control; (c) bounds of getrandbits / randbytes / "
-    "random and the default generator; distinct = distinct case; non-trivial = >= 3 sampling calls"
+    "random and the default generator (dyce.rng.RNG / DEFAULT_RNG as a fresh interpreter finds them); distinct = distinct case; non-trivial = >= 3 sampling calls"
 )
 TRUSTED = [
     "NumPy's SeedSequence is not modelled: the model starts from the bit-generator state read through getstate() after seeding",
@@ -122,6 +122,31 @@ def impl(case):
                     e.seed(99)
                 if out != ra:
                     flags.append(name + ":instances-influence-one-another")
+        return "ok" + (" FLAGS:" + ",".join(flags) if flags else "")
+    if k == "default":
+        # what `import dyce` leaves installed, asked of a fresh interpreter (this process replaces dyce.rng.RNG in other checks)
+        import os
+        import subprocess
+        import sys
+
+        code = (
+            "import dyce.rng as g, random\n"
+            "cls = getattr(g, 'PCG64DXSMRandom', None)\n"
+            "import dyce; h = dyce.H(6)\n"
+            "print('numpy' if cls else 'nonumpy', type(g.RNG).__name__, type(g.DEFAULT_RNG).__name__, g.RNG is g.DEFAULT_RNG,"
+            " isinstance(g.RNG, random.Random), (cls is None) or isinstance(g.RNG, cls), h.roll() in h)"
+        )
+        p = subprocess.run([sys.executable, "-B", "-c", code], capture_output=True, text=True, env=dict(os.environ), timeout=120)
+        toks = p.stdout.split()
+        if p.returncode != 0 or len(toks) != 7:
+            return "ok FLAGS:fresh-interpreter-failed(%s)" % (p.stderr.strip().splitlines()[-1:] or [""])[0][:120]
+        flags = []
+        if toks[0] == "numpy" and toks[5] != "True":
+            flags.append("dyce.rng.RNG-defaults-to-%s-although-NumPy-is-importable" % toks[1])
+        if toks[3] != "True":
+            flags.append("RNG-is-not-DEFAULT_RNG")
+        if toks[4] != "True" or toks[6] != "True":
+            flags.append("RNG-unusable")
         return "ok" + (" FLAGS:" + ",".join(flags) if flags else "")
     if k == "bounds":
         flags = []
@@ -266,6 +291,7 @@ def _rand_seed(rnd):
 
 
 def generate(rnd, tier, scale):
+    yield dict(k="default", seed=0)
     n = int((400 if tier == "quick" else 4000) * scale)
     methods = ["random", "bits", "bytes", "randrange", "randint", "choice", "choices", "shuffle", "sample", "uniform", "triangular", "gauss", "gauss", "normalvariate", "expovariate", "betavariate", "gammavariate"]
     for _ in range(n):
